@@ -471,6 +471,117 @@ theorem C01_calendar_row_rejected (hdr row : List Str) (m : List (Str × Service
   · cases Civil.parseDate8 (optRead hdr row c_start_date) <;> simp [h]
   · cases Civil.parseDate8 (optRead hdr row c_start_date) <;> cases Civil.parseDate8 (optRead hdr row c_end_date) <;> simp [h]
 
+/-! ## end to end: presented bytes in, entities out -/
+
+/-- `bytes` **present** the table `hdr :: rows`: they are what a CSV writer produces for it under *some* choice of
+    quoting per field, line ending per record, final newline and byte-order mark (fields free of CR, unquoted
+    fields free of comma / quote / LF, every row as wide as the header; without a byte-order mark the text must
+    not itself begin with the three bytes of one) -/
+def Presents (bytes : List UInt8) (hdr : List Str) (rows : List (List Str)) : Prop :=
+  ∃ (file : List (List (Bool × Csv.Field) × Bool)) (trailing bom : Bool),
+    (∀ p ∈ file, Csv.ValidRecord p.1) ∧ file.map (fun p => p.1.map Prod.snd) = hdr :: rows ∧
+    (∀ r ∈ rows, r.length = hdr.length) ∧
+    (bom = true → bytes = 0xEF :: 0xBB :: 0xBF :: Csv.writeFile file trailing) ∧
+    (bom = false → bytes = Csv.writeFile file trailing ∧ Csv.stripBom bytes = bytes)
+
+theorem presents_reads {bytes : List UInt8} {hdr : List Str} {rows : List (List Str)} (h : Presents bytes hdr rows) :
+    Csv.readFile bytes = some ⟨hdr, rows, false⟩ := by
+  obtain ⟨file, trailing, bom, hv, hfile, hw, hb1, hb0⟩ := h
+  cases bom with
+  | true =>
+    rw [hb1 rfl]
+    exact C01_readFile_presented file trailing hv hdr rows hfile hw
+  | false =>
+    obtain ⟨hb, hs⟩ := hb0 rfl
+    unfold Csv.readFile
+    rw [hs, hb]
+    have h := Csv.run_file [] file trailing hv
+    simp only [List.nil_append, hfile] at h
+    simp only [Csv.readAll, h]
+    have ht : rows.takeWhile (fun r => r.length == hdr.length) = rows :=
+      takeWhile_all _ _ (fun r hr => by simp [hw r hr])
+    simp [ht]
+
+/-- **C01 end to end, for all ten files at once**: whatever archive holds, under the ten file names, *any*
+    presentation of ten tables (any member order, any extra members – lookup is by name), `ParseStatic` succeeds
+    and every collection of the result is the row function of its table applied to the collections it refers
+    to – the very functions whose per-row behaviour is `C01_route_fields`, `C01_stop_fields`, `C01_trip_fields`,
+    `C01_transfer_fields`, `C01_shape_row_fields`, `C01_frequency_fields`, `C01_stop_time_fields`,
+    `C01_calendar_row`, `C01_one_entity_per_row`. The presentation occurs in the hypotheses only: the right-hand
+    side mentions headers and rows, not bytes – that is "the result does not depend on presentation". -/
+theorem C01_end_to_end (env : Env) (members : List (Str × Str))
+    (ba br bs bt bc bcd bsh btr bf bst : Str)
+    (ha hr hs ht hc hcd hsh htr hf hst : List Str) (ra rr rs rt rc rcd rsh rtr rf rst : List (List Str))
+    (m1 : member members f_agency = some ba) (m2 : member members f_routes = some br)
+    (m3 : member members f_stops = some bs) (m4 : member members f_transfers = some bt)
+    (m5 : member members f_calendar = some bc) (m6 : member members f_calendar_dates = some bcd)
+    (m7 : member members f_shapes = some bsh) (m8 : member members f_trips = some btr)
+    (m9 : member members f_frequencies = some bf) (m10 : member members f_stop_times = some bst)
+    (p1 : Presents ba ha ra) (p2 : Presents br hr rr) (p3 : Presents bs hs rs) (p4 : Presents bt ht rt)
+    (p5 : Presents bc hc rc) (p6 : Presents bcd hcd rcd) (p7 : Presents bsh hsh rsh) (p8 : Presents btr htr rtr)
+    (p9 : Presents bf hf rf) (p10 : Presents bst hst rst) :
+    parse env members = .ok (
+      let ag := parseAgencies ⟨ha, ra, false⟩
+      let routes := parseRoutes ⟨hr, rr, false⟩ ag.1
+      let stops := parseStops env ⟨hs, rs, false⟩
+      let services := servicesOf (parseCalendarDates ⟨hcd, rcd, false⟩ (parseCalendar ⟨hc, rc, false⟩ []))
+      let shapes := parseShapes env ⟨hsh, rsh, false⟩
+      { agencies := ag.1, warnings := ag.2,
+        zone := (match ag.1 with | a :: _ => (env.zoneOf a.timezone).getD [85, 84, 67] | [] => [85, 84, 67]),
+        routes := routes, stops := stops, transfers := parseTransfers ⟨ht, rt, false⟩ stops, services := services, shapes := shapes,
+        trips := addStopTimes env ⟨hst, rst, false⟩ stops (addFrequencies ⟨hf, rf, false⟩ (parseTrips ⟨htr, rtr, false⟩ routes services shapes)) }) := by
+  have e1 := presents_reads p1; have e2 := presents_reads p2; have e3 := presents_reads p3
+  have e4 := presents_reads p4; have e5 := presents_reads p5; have e6 := presents_reads p6
+  have e7 := presents_reads p7; have e8 := presents_reads p8; have e9 := presents_reads p9
+  have e10 := presents_reads p10
+  have hread : Readable members Gen.FileTable.files := by
+    intro p hp
+    rw [table_eq] at hp
+    simp only [List.mem_cons, List.mem_nil_iff, or_false] at hp
+    rcases hp with rfl | rfl | rfl | rfl | rfl | rfl | rfl | rfl | rfl | rfl
+    · simp only [m1]; exact ⟨_, e1, rfl⟩
+    · simp only [m2]; exact ⟨_, e2, rfl⟩
+    · simp only [m3]; exact ⟨_, e3, rfl⟩
+    · simp only [m4]; exact ⟨_, e4, rfl⟩
+    · simp only [m5]; exact ⟨_, e5, rfl⟩
+    · simp only [m6]; exact ⟨_, e6, rfl⟩
+    · simp only [m7]; exact ⟨_, e7, rfl⟩
+    · simp only [m8]; exact ⟨_, e8, rfl⟩
+    · simp only [m9]; exact ⟨_, e9, rfl⟩
+    · simp only [m10]; exact ⟨_, e10, rfl⟩
+  rw [C01_composition env members hread]
+  congr 1
+  exact C01_composition_explicit env (fileOf members) _ _ _ _ _ _ _ _ _ _
+    (by simp [fileOf, m1, e1]) (by simp [fileOf, m2, e2]) (by simp [fileOf, m3, e3]) (by simp [fileOf, m4, e4])
+    (by simp [fileOf, m5, e5]) (by simp [fileOf, m6, e6]) (by simp [fileOf, m7, e7]) (by simp [fileOf, m8, e8])
+    (by simp [fileOf, m9, e9]) (by simp [fileOf, m10, e10])
+
+/-- **presentation independence** as a corollary: two archives presenting the same ten tables parse equal -/
+theorem C01_presentation_independent (env : Env) (members members' : List (Str × Str))
+    (ba br bs bt bc bcd bsh btr bf bst ba' br' bs' bt' bc' bcd' bsh' btr' bf' bst' : Str)
+    (ha hr hs ht hc hcd hsh htr hf hst : List Str) (ra rr rs rt rc rcd rsh rtr rf rst : List (List Str))
+    (m1 : member members f_agency = some ba) (m2 : member members f_routes = some br)
+    (m3 : member members f_stops = some bs) (m4 : member members f_transfers = some bt)
+    (m5 : member members f_calendar = some bc) (m6 : member members f_calendar_dates = some bcd)
+    (m7 : member members f_shapes = some bsh) (m8 : member members f_trips = some btr)
+    (m9 : member members f_frequencies = some bf) (m10 : member members f_stop_times = some bst)
+    (n1 : member members' f_agency = some ba') (n2 : member members' f_routes = some br')
+    (n3 : member members' f_stops = some bs') (n4 : member members' f_transfers = some bt')
+    (n5 : member members' f_calendar = some bc') (n6 : member members' f_calendar_dates = some bcd')
+    (n7 : member members' f_shapes = some bsh') (n8 : member members' f_trips = some btr')
+    (n9 : member members' f_frequencies = some bf') (n10 : member members' f_stop_times = some bst')
+    (p1 : Presents ba ha ra) (p2 : Presents br hr rr) (p3 : Presents bs hs rs) (p4 : Presents bt ht rt)
+    (p5 : Presents bc hc rc) (p6 : Presents bcd hcd rcd) (p7 : Presents bsh hsh rsh) (p8 : Presents btr htr rtr)
+    (p9 : Presents bf hf rf) (p10 : Presents bst hst rst)
+    (q1 : Presents ba' ha ra) (q2 : Presents br' hr rr) (q3 : Presents bs' hs rs) (q4 : Presents bt' ht rt)
+    (q5 : Presents bc' hc rc) (q6 : Presents bcd' hcd rcd) (q7 : Presents bsh' hsh rsh) (q8 : Presents btr' htr rtr)
+    (q9 : Presents bf' hf rf) (q10 : Presents bst' hst rst) :
+    parse env members = parse env members' := by
+  rw [C01_end_to_end env members ba br bs bt bc bcd bsh btr bf bst ha hr hs ht hc hcd hsh htr hf hst ra rr rs rt rc rcd rsh rtr rf rst
+        m1 m2 m3 m4 m5 m6 m7 m8 m9 m10 p1 p2 p3 p4 p5 p6 p7 p8 p9 p10,
+      C01_end_to_end env members' ba' br' bs' bt' bc' bcd' bsh' btr' bf' bst' ha hr hs ht hc hcd hsh htr hf hst ra rr rs rt rc rcd rsh rtr rf rst
+        n1 n2 n3 n4 n5 n6 n7 n8 n9 n10 q1 q2 q3 q4 q5 q6 q7 q8 q9 q10]
+
 /-! ## decimal numbers exactly
 
 The model takes the float of a cell from the harness (`Env.floatOf`, computed with the same library call
